@@ -68,6 +68,10 @@ type GOpts struct {
 	Budget    int64
 	MaxEvents int
 	Options   lua.Options
+	// Proto, when set, is run instead of loading src (a prototype shared between states); OnEmit is called at the start
+	// of every emit (used to perturb goroutine schedules).
+	Proto  *lua.FunctionProto
+	OnEmit func()
 	Ctx       context.Context
 	Setup     func(L *lua.LState, out *GOutcome) // extra host functions
 	After     func(L *lua.LState, out *GOutcome)
@@ -109,6 +113,9 @@ func RunGopher(src string, o *GOpts) (out *GOutcome) {
 		}()
 	}
 	L.SetGlobal("emit", L.NewFunction(func(L *lua.LState) int {
+		if o != nil && o.OnEmit != nil {
+			o.OnEmit()
+		}
 		n := L.GetTop()
 		vals := make([]lua.LValue, n)
 		for i := 1; i <= n; i++ {
@@ -141,7 +148,13 @@ func RunGopher(src string, o *GOpts) (out *GOutcome) {
 	if o != nil && o.Setup != nil {
 		o.Setup(L, out)
 	}
-	fn, err := L.LoadString(src)
+	var fn *lua.LFunction
+	var err error
+	if o != nil && o.Proto != nil {
+		fn = L.NewFunctionFromProto(o.Proto)
+	} else {
+		fn, err = L.LoadString(src)
+	}
 	if err != nil {
 		out.Failed = true
 		out.ErrText = "LOAD: " + err.Error()
